@@ -12,6 +12,7 @@ from checks import keyblind_common as kc
 
 
 def run(ctx):
+    ctx.prove("KeyBlindProofs")   # unbounded (TLAPS) versions of the model-level invariants TLC checks below
     n, cases, ops, nops = kc.run(ctx, "ed25519", "MC_KeyBlind_ed")
     return ctx.finish({
         "traces_validated_against_impl": len(cases),
